@@ -21,6 +21,10 @@ T13s  -> Generated/T13s.lean   (from sr/value_types.py)
                              `are_points_coplanar(graphic_data)` are inputs
 T13se -> Generated/T13se.lean  (from sr/enum.py): member (name, value) pairs of ValueTypeValues, RelationshipTypeValues,
   GraphicTypeValues, GraphicTypeValues3D, TemporalRangeTypeValues, PixelOriginInterpretationValues.
+T13v -> Generated/T13v.lean  (bridges of Proofs/SRItemsTie.lean): `numValueOrder` (attempt order of NumContentItem.value),
+  `numWritesFloat` (guard of FloatingPointValue in NumContentItem.__init__), `wfRangeStart/Stop/Step`, `wfFirstIndex`,
+  `wfSecondIndex` (the comprehension of referenced_waveform_channels), `scoordReshapeWidth`, `scoord3dReshapeWidth`;
+  the flattening `graphic_data.astype(np.float32).flatten().tolist()` of both constructors is checked textually.
 
 Everything is read off the *current* AST; a shape that is not recognised raises Unsupported.
 """
@@ -441,3 +445,92 @@ def build_T13k(tree):
 
 
 TARGETS['T13k'] = {'file': 'sr/value_types.py', 'build': build_T13k}
+
+
+# ======================================================================================================
+# T13v: expressions of the value accessors / constructors that the hand-written model copies (bridges in
+# Proofs/SRItemsTie.lean): NUM read order and float guard, WAVEFORM channel pairing, SCOORD reshape widths
+# ======================================================================================================
+
+def build_T13v(tree):
+    out, shas = [], []
+    # ---- NumContentItem.value: which attribute is tried first, which is the fall-back
+    fn = find_func(tree, 'NumContentItem.value')
+    body = strip_doc(fn.body)
+    shas.append(span_sha(body))
+    tr = [s for s in body if isinstance(s, ast.Try)]
+    if len(tr) != 1 or len(tr[0].body) != 1 or len(tr[0].handlers) != 1 or _norm(tr[0].handlers[0].type) != 'AttributeError' \
+            or len(tr[0].handlers[0].body) != 1:
+        raise Unsupported('NumContentItem.value is no longer try: return … except AttributeError: return …')
+
+    def read_attr(st):
+        m = _re_full(r'returnfloat\(item\.(\w+)\)', _norm(st))
+        if not m:
+            raise Unsupported('NumContentItem.value: return float(item.<Keyword>) expected, got ' + ast.unparse(st))
+        return m
+    order = [read_attr(tr[0].body[0]), read_attr(tr[0].handlers[0].body[0])]
+    out.append(lean_table('numValueOrder', 'List String', [_s(k) for k in order],
+                          doc='`NumContentItem.value`: the attribute read first and the fall-back when it is absent'))
+    # ---- NumContentItem.__init__: when FloatingPointValue is written
+    fn = find_func(tree, 'NumContentItem.__init__')
+    g = [s for s in fn.body if isinstance(s, ast.If) and 'FloatingPointValue' in _norm(s)]
+    if len(g) != 1 or g[0].orelse or len(g[0].body) != 1 or \
+            _norm(g[0].body[0]) != 'measured_value_sequence_item.FloatingPointValue=value':
+        raise Unsupported('NumContentItem.__init__: the FloatingPointValue guard changed')
+    shas.append(span_sha(g))
+    gi = ast.parse(ast.unparse(g[0])).body[0]
+    gi.body = [_ret('True')]
+    out.append(translate_block(_rewrite([gi], {'isinstance(value,float)': 'is_float', 'isinstance(value,(float,))': 'is_float'}) + [_ret('False')],
+                               'numWritesFloat', [('is_float', 'bool')], {},
+                               doc='`NumContentItem.__init__`: whether FloatingPointValue is written'))
+    # ---- WaveformContentItem.referenced_waveform_channels: the pairing
+    fn = find_func(tree, 'WaveformContentItem.referenced_waveform_channels')
+    ret = [s for s in strip_doc(fn.body) if isinstance(s, ast.Return) and isinstance(s.value, ast.ListComp)]
+    if len(ret) != 1:
+        raise Unsupported('referenced_waveform_channels no longer returns a list comprehension')
+    lc = ret[0].value
+    shas.append(span_sha(ret))
+    gen = lc.generators[0]
+    if len(lc.generators) != 1 or gen.ifs or not isinstance(gen.target, ast.Name) or _norm(gen.iter.func) != 'range' \
+            or len(gen.iter.args) != 3 or not isinstance(lc.elt, ast.Tuple) or len(lc.elt.elts) != 2:
+        raise Unsupported('referenced_waveform_channels: [(a, b) for i in range(start, stop, step)] expected')
+    iv = gen.target.id
+    tbl = {'len(val)': 'n'}
+    for nm, e in zip(('wfRangeStart', 'wfRangeStop', 'wfRangeStep'), gen.iter.args):
+        out.append(translate_block([ast.fix_missing_locations(ast.Return(value=_Rewrite(tbl).visit(ast.parse(ast.unparse(e), mode='eval').body)))],
+                                   nm, [('n', 'int')], {}, doc='`referenced_waveform_channels`: argument of range(…)'))
+    for nm, e in zip(('wfFirstIndex', 'wfSecondIndex'), lc.elt.elts):
+        m = _re_full(rf'int\(val\[(.+)\]\)', _norm(e), raw=True)
+        if m is None:
+            raise Unsupported('referenced_waveform_channels: int(val[<index>]) expected')
+        idx = e.args[0].slice
+        out.append(translate_block([ast.fix_missing_locations(ast.Return(value=idx))], nm, [(iv, 'int')], {},
+                                   doc='`referenced_waveform_channels`: index of a pair component'))
+    # ---- reshape widths of the coordinate accessors
+    for cname, lean in (('ScoordContentItem', 'scoordReshapeWidth'), ('Scoord3DContentItem', 'scoord3dReshapeWidth')):
+        fn = find_func(tree, cname + '.value')
+        body = strip_doc(fn.body)
+        shas.append(span_sha(body))
+        m = _re_full(r'returnnp\.array\(self\.GraphicData\)\.reshape\(-1,(\d+)\)', _norm(body[-1])) if len(body) == 1 else None
+        if not m:
+            raise Unsupported(cname + '.value is no longer np.array(self.GraphicData).reshape(-1, <width>)')
+        out.append(f'/-- `{cname}.value`: numbers per row of `reshape(-1, …)` -/\ndef {lean} : Nat := {m}')
+    # ---- the flattening in the constructors: row-major, after the cast
+    for cname in ('ScoordContentItem', 'Scoord3DContentItem'):
+        fn = find_func(tree, cname + '.__init__')
+        st = [s for s in fn.body if isinstance(s, ast.Assign) and _norm(s.targets[0]) == 'self.GraphicData']
+        if len(st) != 1 or _norm(st[0].value) != 'graphic_data.astype(np.float32).flatten().tolist()':
+            raise Unsupported(cname + '.__init__: GraphicData is no longer graphic_data.astype(np.float32).flatten().tolist()')
+        shas.append(span_sha(st))
+    return '\n\n'.join(out), hashlib.sha256(''.join(shas).encode()).hexdigest()
+
+
+def _re_full(pat, text, raw=False):
+    import re
+    m = re.fullmatch(pat, text)
+    if not m:
+        return None
+    return m if raw else m.group(1)
+
+
+TARGETS['T13v'] = {'file': 'sr/value_types.py', 'build': build_T13v}
